@@ -306,17 +306,23 @@ def run(ctx):
                     res["disagreements"].append(dict(op="hgate", cv=cv, pn=pn, lean=out, impl=acc))
 
     # ---- stored hourly metrics vs metrics of predict(baseline) on non-interpolated hours (both fit paths)
-    n_fits = 0 if ctx.get("budget_scale", 1) > 1 else (2 if not thorough else 6)
+    n_fits = 0 if ctx.get("budget_scale", 1) > 1 else (3 if not thorough else 8)
     for j in range(n_fits):
-        r = hourly_fit_oracle(rng, adaptive=(j % 2 == 1))
+        # the third fit of each round uses the smallest daily-training-hours threshold (0: no day is excluded for having
+        # too few measured hours), thorough also the largest sensible one
+        mdth = None if j % 3 != 2 else (0 if j % 6 == 2 else 20)
+        r = hourly_fit_oracle(rng, adaptive=(j % 3 == 1), mdth=mdth)
         res["evaluations"] += 1
         res["hist"]["hourly_fits"] = res["hist"].get("hourly_fits", 0) + 1
         if r:
             res["oracle_failures"].append(r)
-        sigs.add(("hourly_fit", j % 2))
+        sigs.add(("hourly_fit", j % 3, mdth))
     # ---- daily fits: reported RMSE / MAE / CVRMSE / PNRMSE vs the textbook formulas on the finite (observed, predicted) pairs of
     # predict(baseline), and the CVRMSE gate — incl. baselines with days that have usage but no temperature, and missing-usage days
-    dscen = ["ordinary", "temperature_outage", "scattered_missing_temperature", "missing_usage"]
+    # the last two use the APPROVED settings (the kept model is the final refit of the chosen components) on meters with
+    # heavy-tailed noise / outlier days, where that refit differs from the component fits the split selection compared
+    dscen = ["ordinary", "temperature_outage", "scattered_missing_temperature", "missing_usage", "approved_settings_heavy_tails",
+             "approved_settings_outlier_days"]
     for j, scen in enumerate(dscen if (thorough or ctx.get("budget_scale", 1) == 1) else []):
         r = daily_fit_oracle(rng, scen)
         res["evaluations"] += 1
@@ -333,8 +339,9 @@ def run(ctx):
 
 
 def daily_fit_oracle(rng, scenario):
-    """DailyModel with the selected component fits as the final model (alpha_final_type=None: what is reported is what predicts),
-    error dict and CVRMSE gate vs independent recomputation from predict(baseline)."""
+    """DailyModel: error dict and CVRMSE gate vs independent recomputation from predict(baseline).  The first four scenarios keep the
+    selected component fits as the final model (developer setting alpha_final_type=None), the `approved_settings_*` scenarios use the
+    approved constants, under which the kept model is a final refit of the chosen components."""
     import contextlib, io
     from opendsm.eemeter.models.daily.model import DailyModel
     from opendsm.eemeter.models.daily.data import DailyBaselineData
@@ -351,7 +358,14 @@ def daily_fit_oracle(rng, scenario):
         df.iloc[sorted(g.choice(np.arange(3, n - 3), 22, replace=False)), 0] = np.nan
     elif scenario == "missing_usage":
         df.iloc[sorted(g.choice(np.arange(3, n - 3), 20, replace=False)), 1] = np.nan
+    elif scenario == "approved_settings_heavy_tails":
+        df["observed"] = df["observed"] + g.standard_t(2, n) * 2.0
+    elif scenario == "approved_settings_outlier_days":
+        df["observed"] = df["observed"] + g.standard_t(3, n) * 1.0
+        df.iloc[sorted(g.choice(np.arange(3, n - 3), 8, replace=False)), 1] *= 4.0
     settings = {"developer_mode": True, "silent_developer_mode": True, "alpha_final_type": None, "final_bounds_scalar": None}
+    if scenario.startswith("approved_settings"):
+        settings = None
     try:
         with contextlib.redirect_stdout(io.StringIO()), contextlib.redirect_stderr(io.StringIO()):
             data = DailyBaselineData(df, is_electricity_data=True)
@@ -379,7 +393,7 @@ def daily_fit_oracle(rng, scenario):
     return None
 
 
-def hourly_fit_oracle(rng, adaptive):
+def hourly_fit_oracle(rng, adaptive, mdth=None):
     """fit an HourlyModel on a synthetic baseline with gaps; stored baseline metrics must be those of
     predict(baseline) on non-interpolated hours.  The vendored BisectingKMeans calls a scikit-learn
     API that no longer exists (environment defect E3): worked around here only."""
@@ -401,6 +415,8 @@ def hourly_fit_oracle(rng, adaptive):
     try:
         bd = HourlyBaselineData(df, is_electricity_data=True)
         st = dict(elasticnet=dict(adaptive_weights=True, adaptive_weight_max_iter=3, adaptive_weight_tol=1e-3)) if adaptive else None
+        if mdth is not None:
+            st = dict(st or {}, min_daily_training_hours=mdth)
         m = HourlyModel(settings=st).fit(bd, ignore_disqualification=True)
         out = m.predict(bd, ignore_disqualification=True)
     except Exception as e:  # noqa
@@ -411,7 +427,7 @@ def hourly_fit_oracle(rng, adaptive):
     for f in ("n", "rmse", "rmse_adj", "mae", "mbe", "cvrmse_adj", "pnrmse_adj", "r_squared"):
         a, b = getattr(m.baseline_metrics, f), getattr(ref, f)
         if not close(float(a), float(b), 1e-9):
-            return dict(clause="hourly_stored_metrics_not_on_noninterpolated_rows", adaptive_weights=adaptive, statistic=f,
+            return dict(clause="hourly_stored_metrics_not_on_noninterpolated_rows", adaptive_weights=adaptive, min_daily_training_hours=mdth, statistic=f,
                         stored=float(a), of_predict_baseline_noninterpolated=float(b), interpolated_hours=int((~mask).sum()))
     return None
 
